@@ -337,7 +337,7 @@ fn cross_verify(api: &'static SetApi, triples: &[Triple], family: &str, rep: &mu
             let (a, b) = (&triples[j], &triples[i]);
             rep.violate(Violation {
                 key: format!("c06:{family}:same-signature-for-different-triples"),
-                summary: format!("ML-DSA-{}: ({:?}, ctx={}, M={}) and ({:?}, ctx={}, M={}) produce the same signature: their formatted messages collide", p.id, a.mode, hex(&a.ctx), hex(&a.msg), b.mode, hex(&b.ctx), hex(&b.msg)),
+                summary: format!("ML-DSA-{}: ({:?}, |ctx|={}, |M|={}) and ({:?}, |ctx|={}, |M|={}) produce the same signature: their formatted messages collide (triples {j} and {i} of family {family}; full inputs in the replay file)", p.id, a.mode, a.ctx.len(), a.msg.len(), b.mode, b.ctx.len(), b.msg.len()),
                 replay: json!({"engine":"api","set":p.id,"ops":[{"op":"keygen_seed","seed":hex(xi)},{"op":"sign_pair_distinct","a":{"mode":format!("{:?}",a.mode),"ctx":hex(&a.ctx),"msg":hex(&a.msg)},"b":{"mode":format!("{:?}",b.mode),"ctx":hex(&b.ctx),"msg":hex(&b.msg)},"rnd":hex(&rnd)}]}),
             });
         } else {
@@ -366,7 +366,7 @@ fn cross_verify(api: &'static SetApi, triples: &[Triple], family: &str, rep: &mu
         let (a, b) = (&triples[i], &triples[j]);
         rep.violate(Violation {
             key: format!("c06:{family}:{}", if i == j { "own-triple-rejected" } else { "accepted-under-other-triple" }),
-            summary: format!("ML-DSA-{}: signature for ({:?}, ctx={}, M={}) verified under ({:?}, ctx={}, M={}) gives {got}", p.id, a.mode, hex(&a.ctx), hex(&a.msg[..a.msg.len().min(40)]), b.mode, hex(&b.ctx), hex(&b.msg[..b.msg.len().min(40)])),
+            summary: format!("ML-DSA-{}: signature for ({:?}, |ctx|={} ctx={}.., |M|={} M={}..) verified under ({:?}, |ctx|={} ctx={}.., |M|={} M={}..) gives {got}", p.id, a.mode, a.ctx.len(), hex(&a.ctx[..a.ctx.len().min(8)]), a.msg.len(), hex(&a.msg[..a.msg.len().min(8)]), b.mode, b.ctx.len(), hex(&b.ctx[..b.ctx.len().min(8)]), b.msg.len(), hex(&b.msg[..b.msg.len().min(8)])),
             replay: json!({"engine":"api","set":p.id,"ops":[{"op":"keygen_seed","seed":hex(xi)},{"op":"sign_then_verify_other","sign":{"mode":format!("{:?}",a.mode),"ctx":hex(&a.ctx),"msg":hex(&a.msg)},"verify":{"mode":format!("{:?}",b.mode),"ctx":hex(&b.ctx),"msg":hex(&b.msg)},"rnd":hex(&rnd),"expect":i==j}]}),
         });
     }
@@ -537,6 +537,32 @@ pub fn c07(cx: &Ctx, rep: &mut Report) {
         rep.nontrivial_by_construction((maxlen - 254) as u64 * full_modes.len() as u64 * 2);
         for x in viol {
             rep.violate(x);
+        }
+        // lengths around every power of two above the sweep (a guard written as a mask or a narrower integer wraps there)
+        let mut big: Vec<usize> = Vec::new();
+        for k in 11..=cx.tier.pick(20u32, 24) {
+            let b = 1usize << k;
+            big.extend([b - 1, b, b + 1, b + 255, b + 256]);
+        }
+        big.extend([3 << 16, (3 << 16) + 7, 65791, 65792]);
+        for &l in &big {
+            let ctx = vec![0x5Au8; l];
+            for &mode in &full_modes {
+                let mut rng = ScriptRng::ok(&rnd);
+                rep.count("big_lengths", 2);
+                rep.nontrivial_case(fnv(&[&l.to_le_bytes()[..], &[mode as u8, p.id as u8]].concat()));
+                let rp = json!({"engine":"api","set":p.id,"ops":[{"op":"keygen_seed","seed":hex(&xi)},{"op":"ctx_len_case","what":"big","mode":format!("{mode:?}"),"len":l,"msg":hex(&msg),"rnd":hex(&rnd)}]});
+                match sk.sign(mode, &mut rng, &msg, &ctx) {
+                    Ok(Err(_)) => {}
+                    other => rep.violate(Violation { key: format!("c07:sign:{mode:?}:overlong-ctx-signed"), summary: format!("ML-DSA-{} {mode:?}: signing with a {l}-byte context returned {:?}", p.id, other.map(|r| r.map(|_| "a signature"))), replay: rp.clone() }),
+                }
+                let mp = forge::wrapped_m_prime(mode, &msg, &ctx);
+                let s1 = refmodel::sign_internal_ctx(&skc, &mp, &rnd, &refmodel::SignOpts::default()).0.unwrap();
+                match pk.verify(mode, &msg, &s1, &ctx) {
+                    Ok(false) => {}
+                    other => rep.violate(Violation { key: format!("c07:verify:{mode:?}:overlong-ctx-accepted"), summary: format!("ML-DSA-{} {mode:?}: verification with a {l}-byte context returned {other:?}", p.id), replay: rp }),
+                }
+            }
         }
         // sigma2 / sigma3 aliases through honest signatures
         for &l in &alias_lens {
